@@ -328,6 +328,10 @@ class StrAI:
             if e.id in env:
                 return env[e.id]
             if e.id in self.g:
+                if isinstance(self.g[e.id], str):
+                    return AStr.lit(self.g[e.id])  # a module-level string constant
+                if isinstance(self.g[e.id], int) and not isinstance(self.g[e.id], bool):
+                    return self.g[e.id]
                 return ("global", e.id)
             if e.id in ("True", "False", "None"):
                 return {"True": True, "False": False, "None": None}[e.id]
